@@ -38,11 +38,14 @@ def plan(prop, tier):
     q = tier == "quick"
     if prop == "C13":
         return [("f64", EXACT + "," + ROUND, 90 if q else 900, 3 if q else 4, 70 if q else 110, 12), ("f32", EXACT, 20 if q else 200, 3, 60, 12),
-                ("f64", "tfan,fan,tfan", 90 if q else 900, 3, 60, 12), ("f64", "cx,cxsub,cx,cxabut", 160 if q else 1600, 4, 90, 8), ("tri", 2, 840, 9 if q else 1)]
+                ("f64", "tfan,fan,tfan", 90 if q else 900, 3, 60, 12), ("f64", "cx,cxsub,cx,cxabut", 160 if q else 1600, 4, 90, 8),
+                ("enum", "en:3x2:4:0_0:s", 32 if q else 2, 8), ("enum", "en:2x2:3:0_0:s", 512 if q else 32, 8), ("enum", "en:2x2:4/0:1_1:s", 32 if q else 2, 8), ("tri", 2, 840, 9 if q else 1)]
     if prop == "C14":
-        return [("f64", EXACT + ",cx,rect", 110 if q else 1100, 3 if q else 4, 70 if q else 110, 6), ("f32", EXACT, 20 if q else 200, 3, 60, 6), ("tri", 2, 840, 9 if q else 1)]
+        return [("f64", EXACT + ",cx,rect", 110 if q else 1100, 3 if q else 4, 70 if q else 110, 6), ("f32", EXACT, 20 if q else 200, 3, 60, 6),
+                ("enum", "en:3x2:4:0_0:k", 32 if q else 2, 6), ("enum", "en:2x1:2:0_0:s", 512 if q else 32, 6), ("enum", "en:3x3:4:0_0:s", 2048 if q else 128, 6), ("tri", 2, 840, 9 if q else 1)]
     if prop == "C15":
-        return [("f64", EXACT + "," + ROUND, 70 if q else 700, 3 if q else 4, 60 if q else 100, 36 if q else 60), ("f32", EXACT, 15 if q else 150, 3, 50, 36), ("tri", 2, 840, 13 if q else 2)]
+        return [("f64", EXACT + "," + ROUND, 70 if q else 700, 3 if q else 4, 60 if q else 100, 36 if q else 60), ("f32", EXACT, 15 if q else 150, 3, 50, 36),
+                ("enum", "en:2x2:3:0_0:s", 1024 if q else 64, 30), ("enum", "en:2x2:4/0:1_1:s", 64 if q else 4, 30), ("tri", 2, 840, 13 if q else 2)]
     raise ToolError("no plan for " + prop)
 
 
@@ -60,6 +63,13 @@ def record(prop, tier, seed, wd):
             if b[0] == "f32":
                 args.append("--f32")
             vlib.vh(args, tmp)
+        elif b[0] == "enum":
+            # every stride-th operand pair of an enumerated family (gen.rs `en:...`), all four operations
+            _, fam, stride, matrix = b
+            total = int(vlib.vh_out(["enum-total", "--family", fam]))
+            start = bseed % stride
+            vlib.vh(["rec-stages", "--family", fam, "--count", (total - start + stride - 1) // stride, "--seed", bseed, "--kmax", 3, "--max-edges", 400,
+                     "--matrix", matrix, "--rid0", rid0, "--enum-from", start, "--enum-stride", stride], tmp)
         else:
             _, n, l, stride = b
             vlib.vh(["rec-stages-tri", "--n", n, "--l", l, "--from", bseed % stride, "--stride", stride, "--matrix", 24, "--rid0", rid0], tmp)
